@@ -1042,7 +1042,6 @@ func staticFlagScan(ld *symgo.Loaded) (notes, violations []string) {
 	return notes, violations
 }
 
-
 // ---------------- coverage of the anchored files ----------------
 
 // writeCoverage reports, for the source files the property is anchored in, which functions and basic blocks the
